@@ -75,7 +75,7 @@ CHECKS = {
         "assumptions": TRUST + ["extra harmless queries before the checksum query are tolerated"],
     },
     "C08": {
-        "test": "TestC08", "level": "exploration", "checks": (200, 2000), "timeout": (900, 7200),
+        "test": "TestC08", "level": "exploration", "checks": (140, 1500), "timeout": (900, 7200),
         "rule": "rapid-generated histories whose string/blob values are pushed to 3000..9000 bytes (packets straddle the driver's 4 KiB receive buffer) and which contain "
                 "zero TIMESTAMPs, streamed with far-ahead or lock-step pacing to a handler that snapshots each delivery and (half the cases) overwrites every delivered value "
                 "in place. Oracle: every delivery equals the model at delivery time whatever was overwritten before; no value changes when another value of the same delivery "
